@@ -42,6 +42,8 @@ def parse_type(node):
             return (node.id,)
         if node.id == "NoneT":
             return ("none",)
+        if node.id == "FDict":
+            return ("arr", "fdict", 1)
         if node.id == "ArrayMap":
             return (
                 "tup",
